@@ -447,6 +447,13 @@ class SymReal:
             if isinstance(o, float) and (o != o or o in (float("inf"), float("-inf"))):
                 raise SymxUnsupported("non-finite float in real arithmetic")
             return SymReal(z3.RealVal(Fraction(o)))
+        if type(o).__module__ == "numpy":
+            try:
+                return SymReal(z3.RealVal(Fraction(o.item())))
+            except Exception:
+                pass
+        if isinstance(o, Fraction):
+            return SymReal(z3.RealVal(o))
         raise SymxUnsupported(f"real of {type(o)}")
 
     def _cmp(self, o, op):
